@@ -70,8 +70,10 @@ func (p *process) Invoke(msgs []Envelope) {
 		// If we recovered, we buffer up all the messages that we could not process
 		// so we can retry them on the next restart.
 		if v := recover(); v != nil {
-			p.context.message = Stopped{}
-			p.context.receiver.Receive(p.context)
+			if !p.restartsExceeded(v) {
+				p.context.message = Stopped{}
+				p.context.receiver.Receive(p.context)
+			}
 
 			p.mbuffer = make([]Envelope, nmsg-nproc)
 			for i := 0; i < nmsg-nproc; i++ {
@@ -121,8 +123,10 @@ func (p *process) Start() {
 	p.context.receiver = recv
 	defer func() {
 		if v := recover(); v != nil {
-			p.context.message = Stopped{}
-			p.context.receiver.Receive(p.context)
+			if !p.restartsExceeded(v) {
+				p.context.message = Stopped{}
+				p.context.receiver.Receive(p.context)
+			}
 			p.tryRestart(v)
 		}
 	}()
@@ -142,6 +146,16 @@ func (p *process) Start() {
 	p.inbox.Start(p)
 }
 
+// restartsExceeded reports whether a panic with the given value terminates the
+// process instead of restarting it. In that case cleanup delivers the one and
+// only Stopped message to the receiver.
+func (p *process) restartsExceeded(v any) bool {
+	if _, ok := v.(*InternalError); ok {
+		return false
+	}
+	return p.restarts == p.MaxRestarts
+}
+
 func (p *process) tryRestart(v any) {
 	// InternalError does not take the maximum restarts into account.
 	// For now, InternalError is getting triggered when we are dialing
@@ -157,7 +171,7 @@ func (p *process) tryRestart(v any) {
 	stackTrace := cleanTrace(debug.Stack())
 	// If we reach the max restarts, we shutdown the inbox and clean
 	// everything up.
-	if p.restarts == p.MaxRestarts {
+	if p.restartsExceeded(v) {
 		p.context.engine.BroadcastEvent(ActorMaxRestartsExceededEvent{
 			PID:       p.pid,
 			Timestamp: time.Now(),
